@@ -348,6 +348,46 @@ func crossFileState(r *an.Run, m *runModel, rule string) {
 			}
 		}
 	}
+	// values carried from one iteration to the next: besides the position in the list of files and the
+	// error list, nothing — a variable that keeps what the previous file set (a default, a flag, a "last seen")
+	// makes this file's result depend on that file
+	for _, in := range loop.Header.Instrs {
+		phi, ok := in.(*ssa.Phi)
+		if !ok {
+			continue
+		}
+		n++
+		switch {
+		case m.errsPhi != nil && phi == m.errsPhi:
+			continue
+		case ssa.Value(phi) == m.loop.Index:
+			continue
+		case an.ShortType(phi.Type()) == "[]error":
+			continue
+		}
+		// a phi all of whose in-loop edges are the phi itself carries nothing; one that every iteration
+		// advances by a constant is the position in the list
+		carries := false
+		for i, e := range phi.Edges {
+			if !loop.Blocks[phi.Block().Preds[i]] || e == ssa.Value(phi) {
+				continue
+			}
+			if add, ok := e.(*ssa.BinOp); ok && (add.Op == token.ADD || add.Op == token.SUB) && add.X == ssa.Value(phi) {
+				if _, isc := an.ConstInt(add.Y); isc {
+					continue
+				}
+			}
+			carries = true
+		}
+		if !carries {
+			continue
+		}
+		name := phi.Comment
+		if name == "" {
+			name = phi.Name()
+		}
+		r.Fail(short(f)+"|carried|"+name+":"+an.ShortType(phi.Type()), phi.Pos(), "variable %s (%s) is assigned while one file is processed and read while the next one is: what one file leaves there can change the result of the next", name, an.ShortType(phi.Type()))
+	}
 	runnerStateWriteOnly(r, m)
 	r.Pass(short(f)+"|shared-state-inventory", m.loop.If.Pos(), "no local variable, pointer or map created outside the per-file loop is written or passed to a call inside it, apart from the FileSet, logger, runner and configuration (%d uses inspected)", n)
 	r.Count("outer values used in the file loop", n)
